@@ -91,7 +91,7 @@ def _observe_seg(job):
 
 # ---------------- atomic constructs at every width ----------------
 ATOMS = ["`c d`", "[l m](u v)", "{% t a=1 %}", "{{ v w }}", "{# c d #}", "<!-- c d -->", "<b c=\"d e\">", "</b>", "![i j](k l)", "[r s][t u]",
-         "``e ` f``", "{% t %}{% /t %}", "<!-- a --><!-- /a -->", "<!-- see the --help option -->", "<!--- n o --->", "{# a # b #}", "{{ a } b }}"]
+         "``e ` f``", "{% t %}{% /t %}", "<!-- a --><!-- /a -->", "{% if u %}{{ u.n }}{% endif %}", "{{ n }}{# c #}", "<!-- r -->{% cite %}", "<!-- see the --help option -->", "<!--- n o --->", "{# a # b #}", "{{ a } b }}"]
 PLAINW = ["aa", "bbbb", "c"]
 
 
